@@ -1,4 +1,6 @@
 mod cases;
+mod conc;
+mod concgen;
 mod conn;
 mod ext;
 mod fault;
@@ -264,6 +266,46 @@ fn main() {
                     println!("{}", r2);
                 }
             }
+        }
+        "conc" => {
+            // scheduler-driven exploration of concurrent programs
+            let kind = get("kind", "C03");
+            let set = get("set", "pairs");
+            let seed: u64 = get("seed", "1").parse().unwrap();
+            let count: usize = get("count", "20").parse().unwrap();
+            let max_runs: usize = get("max-runs", "3000").parse().unwrap();
+            let random_runs: usize = get("random-runs", "200").parse().unwrap();
+            let part: usize = get("part", "0").parse().unwrap();
+            let parts: usize = get("parts", "1").parse().unwrap();
+            let mut out = BufWriter::new(File::create(get("out", "conc.ndjson")).unwrap());
+            let mut rng = SmallRng::seed_from_u64(seed);
+            conc::install_scheduler_hook();
+            let progs: Vec<conc::Program> = match set.as_str() {
+                "pairs" => concgen::pairs(&kind),
+                "sampled" => concgen::sampled(&kind, count, &mut rng),
+                "swarms" => concgen::swarms(&kind),
+                "eviction" => concgen::eviction(&kind, count, &mut rng),
+                _ => panic!("unknown program set"),
+            };
+            let mut runs = 0;
+            let mut exhausted = 0;
+            let mut bad = 0;
+            let mut nprog = 0;
+            for (i, p) in progs.iter().enumerate() {
+                if i % parts != part {
+                    continue;
+                }
+                nprog += 1;
+                writeln!(out, "{}", conc::program_event(i + 1, p)).unwrap();
+                let (r, ex, b) = conc::explore(p, i + 1, max_runs, random_runs, seed + i as u64, &mut out);
+                runs += r;
+                bad += b;
+                if ex {
+                    exhausted += 1;
+                }
+            }
+            out.flush().unwrap();
+            println!("{{\"programs\": {}, \"runs\": {}, \"exhausted\": {}, \"incomplete\": {}}}", nprog, runs, exhausted, bad);
         }
         "tcp-wire" => {
             // frame streams over a socket, every stream under many segmentations
